@@ -2,6 +2,8 @@
 import re
 from props import authlib as A
 from props import c09 as C9
+from props import c10 as C10
+from props import txgen as TG
 
 ID = "C08"
 MANIFEST = {
@@ -363,6 +365,8 @@ def suites(rng, tier):
         {"suite": "auth", "name": "signer-rule-fn", "lines": signer_rule_cases(rng, {"quick": 500, "thorough": 20000, "search": 2000}[tier]),
          "distribution": {"exhaustive_flag_words": 128, "signer_configs": 5}},
         oracle_substitution_suite(rng, {"quick": 1500, "thorough": 30000, "search": 6000}[tier]),
+        {"suite": "txval", "name": "receivership-bracket-shapes", "lines": TG.val_exhaustive(rng, "liq3", 4 if tier != "thorough" else 5),
+         "distribution": {"alphabet": TG.ALPHABETS["liq3"], "note": "the 'strictly inside an active receivership' clause: transaction shapes with repeated / trailing-byte start and end instructions; a receivership that is not closed by its own end instruction lets any signer withdraw / repay afterwards"}},
     ]
 
 
@@ -470,6 +474,8 @@ def must_reject(k):
 
 
 def nontrivial(suite, case, impl):
+    if suite == "txval":
+        return C10.nontrivial(suite, case, impl)
     if suite == "oracle":
         return True          # every case is a substitution that must be rejected
     if case.startswith("S "):
@@ -511,6 +517,8 @@ def oracle_substitution(case, impl):
 def oracle(suite, case, impl):
     if suite == "oracle":
         return oracle_substitution(case, impl)
+    if suite == "txval":
+        return C10.oracle(suite, case, impl)
     if case.startswith("S "):
         return oracle_signer_rule(case, impl)
     k = kvs(case)
